@@ -1,0 +1,11 @@
+//go:build verif
+
+package ccb
+
+// Verification hook for property C13 (decoding is total and bounded): exposes the
+// nested-contact splitter.  Add-only; compiled only with -tags verif.
+
+// VerifC13SplitFlatEntryAndRoute exposes splitFlatEntryAndRoute.
+func VerifC13SplitFlatEntryAndRoute(contact string) (entry, ccbid, route string, ok bool) {
+	return splitFlatEntryAndRoute(contact)
+}
